@@ -176,7 +176,14 @@ func runInBubble(t *testing.T, c Case) (out *Outcome) {
 		out.Viol["C03"] = append(out.Viol["C03"], fmt.Sprintf("the case did not finish within a minute of real time: %d goroutines of the library have been waiting for one of its mutexes all that time (a lock is held across a publish or a wait: deadlock); Shutdown and the calls racing it never return", waits))
 		return out
 	}
-	t.Fatalf("VERIF-INCONCLUSIVE: a bubble case did not finish within a minute of real time (no lock cycle in the goroutine dump)")
+	// nothing of the library waits for a lock: the machine may simply have stood still for a
+	// while (a snapshot, a suspended VM); the case gets more time before the run is given up
+	select {
+	case out = <-done:
+		return out
+	case <-time.After(5 * time.Minute):
+	}
+	t.Fatalf("VERIF-INCONCLUSIVE: a bubble case did not finish within six minutes of real time (no lock cycle in the goroutine dump)")
 	return out
 }
 
